@@ -441,6 +441,262 @@ theorem attachP_spec (s : LS) (v : Nat) (n : Slot) (hM : Mirror s) (hU : Uniq s)
   rw [a3 w, (F w).1]
   by_cases hw : w = v <;> simp [hw]
 
+/-! ## values held in a dict: `dict[key] = new`, unlink `old`, link `new` again -/
+
+/-- detaching, fact by fact, under weak hypotheses: every listed child is attached and records the
+parent, and ids are unique among the children of `v`'s recorded ancestors -/
+theorem detachP_gen (s : LS) (v : Nat)
+    (h2 : ∀ a, ∀ c ∈ (s.get a).chi, s.attached c = true ∧ a ∈ (s.get c).anc)
+    (hUv : ∀ c, (s.get v).cont = some c → ∀ a ∈ (s.get v).anc, ∀ c' ∈ (s.get a).chi, (s.get c').cont = some c → c' = v) :
+    (∀ w c', c' ∈ ((setContainerP s v none).get w).chi ↔ (c' ∈ (s.get w).chi ∧ c' ≠ v)) ∧
+    (∀ w, (setContainerP s v none).attached w = true ↔ (s.attached w = true ∧ w ≠ v)) ∧
+    (∀ a, ∀ c ∈ ((setContainerP s v none).get a).chi,
+      (setContainerP s v none).attached c = true ∧ a ∈ ((setContainerP s v none).get c).anc) := by
+  have F := detachP_fields s v
+  have hchi : ∀ w c', c' ∈ ((setContainerP s v none).get w).chi ↔ (c' ∈ (s.get w).chi ∧ c' ≠ v) := by
+    intro w c'
+    rw [(F w).2.2.1]
+    cases hc : (s.get v).cont with
+    | none =>
+      simp only
+      constructor
+      · intro h
+        refine ⟨h, fun e => ?_⟩
+        subst e
+        have := (h2 w c' h).1
+        rw [attached_iff] at this
+        obtain ⟨sl, hsl⟩ := this
+        rw [hc] at hsl; cases hsl
+      · exact fun h => h.1
+    | some c =>
+      simp only
+      by_cases hw : w ∈ (s.get v).anc
+      · simp only [hw, if_true, List.mem_filter, bne_iff_ne, ne_eq]
+        constructor
+        · rintro ⟨g1, g2⟩
+          exact ⟨g1, fun e => g2 (by rw [e, hc])⟩
+        · rintro ⟨g1, g2⟩
+          exact ⟨g1, fun e => g2 (hUv c hc w hw c' g1 e)⟩
+      · simp only [hw, if_false]
+        constructor
+        · intro h
+          refine ⟨h, fun e => ?_⟩
+          subst e
+          exact hw (h2 w c' h).2
+        · exact fun h => h.1
+  have hatt : ∀ w, (setContainerP s v none).attached w = true ↔ (s.attached w = true ∧ w ≠ v) := by
+    intro w
+    unfold LS.attached
+    rw [(F w).1]
+    by_cases hw : w = v <;> simp [hw]
+  refine ⟨hchi, hatt, ?_⟩
+  intro a c' hc'
+  obtain ⟨g1, g2⟩ := (hchi a c').mp hc'
+  refine ⟨(hatt c').mpr ⟨(h2 a c' g1).1, g2⟩, ?_⟩
+  rw [(F c').2.1]
+  exact (h2 a c' g1).2
+
+/-- attaching a detached value `v` to a slot that `old` (and nobody else) already occupies: `v` is
+appended only where no child with that id is listed, i.e. outside the ancestors of `old` -/
+theorem attachDup_spec (s0 : LS) (v old : Nat) (n : Slot) (hM : Mirror s0) (hU : Uniq s0)
+    (hv : (s0.get v).cont = none) (hold : (s0.get old).cont = some n) :
+    (∀ w, ((setContainerP s0 v (some n)).get w).cont = if w = v then some n else (s0.get w).cont) ∧
+    (∀ w, ((setContainerP s0 v (some n)).get w).anc = (s0.get w).anc) ∧
+    (∀ w, ((setContainerP s0 v (some n)).get w).chi =
+      if w ∈ (s0.get v).anc ∧ old ∉ (s0.get w).chi then (s0.get w).chi ++ [v] else (s0.get w).chi) := by
+  have e : setContainerP s0 v (some n) = addAll (s0.setV v (fun x => { x with cont := some n })) (s0.get v).anc v n := by
+    unfold setContainerP
+    simp only [hv, get_setV, if_true]
+  have hv2 : ((s0.setV v (fun x => { x with cont := some n })).get v).cont = some n := by simp
+  have hvnot : ∀ a, v ∉ (s0.get a).chi := by
+    intro a h
+    have := (hM.2 a v h).1
+    rw [attached_iff] at this
+    obtain ⟨sl, hsl⟩ := this
+    rw [hv] at hsl; cases hsl
+  refine ⟨?_, ?_, ?_⟩
+  · intro w
+    rw [e, addAll_cont]; simp only [get_setV]; split <;> rfl
+  · intro w
+    rw [e, addAll_anc]; simp only [get_setV]; split <;> rfl
+  · intro w
+    rw [e, addAll_chi _ _ _ _ hv2]
+    have hchi2 : ((s0.setV v (fun x => { x with cont := some n })).get w).chi = (s0.get w).chi := by
+      simp only [get_setV]; split <;> rfl
+    rw [hchi2]
+    have hany : (s0.get w).chi.any
+        (fun c => ((s0.setV v (fun x => { x with cont := some n })).get c).cont == some n) = true ↔ old ∈ (s0.get w).chi := by
+      rw [List.any_eq_true]
+      constructor
+      · rintro ⟨c, hc, hcn⟩
+        have hcv : c ≠ v := fun e' => hvnot w (e' ▸ hc)
+        simp only [get_setV, hcv, if_false, beq_iff_eq] at hcn
+        rw [hU c old n hcn hold] at hc
+        exact hc
+      · intro ho
+        have hov : old ≠ v := fun e' => hvnot w (e' ▸ ho)
+        exact ⟨old, ho, by simp [get_setV, hov, hold]⟩
+    by_cases hw : w ∈ (s0.get v).anc
+    · by_cases ho : old ∈ (s0.get w).chi
+      · rw [if_neg (fun h => h.2 (hany.mpr ho)), if_neg (fun h => h.2 ho)]
+      · rw [if_pos ⟨hw, fun h => ho (hany.mp h)⟩, if_pos ⟨hw, ho⟩]
+    · rw [if_neg (fun h => hw h.1), if_neg (fun h => hw h.1)]
+
+/-- **replacing a value held in a dict keeps the links mirrored and the ids unique**, when ids are
+unique before (each dict holds one value: no job shared by several usage patterns) -/
+theorem replaceInDict_links (s : LS) (old new : Nat) (s' : LS) (hM : Mirror s) (hU : Uniq s)
+    (hnew : (s.get new).cont = none) (h : replaceInDict s old new = .ok s') : Mirror s' ∧ Uniq s' := by
+  unfold replaceInDict at h
+  split at h
+  · cases h
+  rename_i sl hsl
+  split at h
+  · cases h
+  split at h
+  · cases h
+  rename_i key _ _
+  split at h
+  · cases h
+  rename_i s1 hs1
+  split at h
+  · cases h
+  rename_i s2 hs2
+  have hne : old ≠ new := by
+    intro e; rw [e] at hsl; rw [hnew] at hsl; cases hsl
+  -- step 1: `dict[key] = new`
+  unfold dictSet at hs1
+  have e1 := setContainer_ok _ _ _ _ hs1
+  obtain ⟨c1, a1, x1⟩ := attachDup_spec (s.setEntry sl key new) new old sl hM hU hnew hsl
+  rw [← e1] at c1 a1 x1
+  have get0 : ∀ w, (s.setEntry sl key new).get w = s.get w := fun w => rfl
+  simp only [get0] at c1 a1 x1
+  have att1 : ∀ w, s1.attached w = true ↔ (w = new ∨ s.attached w = true) := by
+    intro w; unfold LS.attached; rw [c1 w]; by_cases hw : w = new <;> simp [hw]
+  have mem1 : ∀ w c, c ∈ (s1.get w).chi ↔
+      (c ∈ (s.get w).chi ∨ (c = new ∧ w ∈ (s.get new).anc ∧ old ∉ (s.get w).chi)) := by
+    intro w c
+    rw [x1 w]
+    by_cases hc : w ∈ (s.get new).anc ∧ old ∉ (s.get w).chi
+    · rw [if_pos hc, List.mem_append, List.mem_singleton]
+      constructor
+      · rintro (g | g)
+        · exact Or.inl g
+        · exact Or.inr ⟨g, hc.1, hc.2⟩
+      · rintro (g | g)
+        · exact Or.inl g
+        · exact Or.inr g.1
+    · rw [if_neg hc]
+      constructor
+      · exact Or.inl
+      · rintro (g | g)
+        · exact g
+        · exact absurd ⟨g.2.1, g.2.2⟩ hc
+  have newnot : ∀ a, new ∉ (s.get a).chi := by
+    intro a hh
+    have := (hM.2 a new hh).1
+    rw [attached_iff] at this
+    obtain ⟨x, hx⟩ := this
+    rw [hnew] at hx; cases hx
+  have h2_1 : ∀ a, ∀ c ∈ (s1.get a).chi, s1.attached c = true ∧ a ∈ (s1.get c).anc := by
+    intro a c hc
+    rw [a1 c]
+    rcases (mem1 a c).mp hc with g | ⟨rfl, g1, _⟩
+    · exact ⟨(att1 c).mpr (Or.inr (hM.2 a c g).1), (hM.2 a c g).2⟩
+    · exact ⟨(att1 c).mpr (Or.inl rfl), g1⟩
+  -- step 2: unlink `old`
+  have e2 := setContainer_ok _ _ _ _ hs2
+  obtain ⟨chi2, att2, cl2⟩ := detachP_gen s1 old h2_1
+    (by
+      intro c hc a ha c' hc' hcc'
+      rw [c1 old] at hc
+      simp only [hne, if_false] at hc
+      rw [hsl] at hc
+      cases hc
+      rw [a1 old] at ha
+      have hold_in : old ∈ (s.get a).chi := hM.1 old ((attached_iff s old).mpr ⟨sl, hsl⟩) a ha
+      rcases (mem1 a c').mp hc' with g | ⟨_, _, g3⟩
+      · rw [c1 c'] at hcc'
+        by_cases hcn : c' = new
+        · exact absurd (hcn ▸ g) (newnot a)
+        · simp only [hcn, if_false] at hcc'
+          exact hU c' old sl hcc' hsl
+      · exact absurd hold_in g3)
+  rw [← e2] at chi2 att2 cl2
+  have F2 := detachP_fields s1 old
+  rw [← e2] at F2
+  have cont2 : ∀ w, (s2.get w).cont = if w = old then none else if w = new then some sl else (s.get w).cont := by
+    intro w
+    rw [(F2 w).1, c1 w]
+  have anc2 : ∀ w, (s2.get w).anc = (s.get w).anc := fun w => by rw [(F2 w).2.1, a1 w]
+  -- step 3: link `new` again
+  have e3 := setContainer_ok _ _ _ _ h
+  obtain ⟨chi3, att3, cl3⟩ := detachP_gen s2 new cl2
+    (by
+      intro c hc a _ c' hc' hcc'
+      rw [cont2 new] at hc
+      simp only [hne.symm, if_false, if_true] at hc
+      cases hc
+      rw [cont2 c'] at hcc'
+      by_cases h1 : c' = old
+      · simp [h1] at hcc'
+      · by_cases h3 : c' = new
+        · exact h3
+        · simp only [h1, h3, if_false] at hcc'
+          exact absurd (hU c' old sl hcc' hsl) h1)
+  have F3 := detachP_fields s2 new
+  have cont3 : ∀ w, ((setContainerP s2 new none).get w).cont =
+      if w = new then none else if w = old then none else (s.get w).cont := by
+    intro w
+    rw [(F3 w).1, cont2 w]
+    by_cases h1 : w = new
+    · simp [h1]
+    · by_cases h3 : w = old <;> simp [h1, h3]
+  have anc3 : ∀ w, ((setContainerP s2 new none).get w).anc = (s.get w).anc := fun w => by rw [(F3 w).2.1, anc2 w]
+  have M3 : Mirror (setContainerP s2 new none) := by
+    refine ⟨?_, cl3⟩
+    intro w hw a ha
+    obtain ⟨g1, g2⟩ := (att3 w).mp hw
+    obtain ⟨g3, g4⟩ := (att2 w).mp g1
+    have g5 : s.attached w = true := by
+      rcases (att1 w).mp g3 with g | g
+      · exact absurd g g2
+      · exact g
+    rw [anc3 w] at ha
+    have g6 : w ∈ (s.get a).chi := hM.1 w g5 a ha
+    exact (chi3 a w).mpr ⟨(chi2 a w).mpr ⟨(mem1 a w).mpr (Or.inl g6), g4⟩, g2⟩
+  have U3 : Uniq (setContainerP s2 new none) := by
+    intro w w' x hx hx'
+    rw [cont3 w] at hx
+    rw [cont3 w'] at hx'
+    by_cases h1 : w = new
+    · simp [h1] at hx
+    · by_cases h3 : w = old
+      · simp [h1, h3] at hx
+      · by_cases h1' : w' = new
+        · simp [h1'] at hx'
+        · by_cases h3' : w' = old
+          · simp [h1', h3'] at hx'
+          · simp only [h1, h3, h1', h3', if_false] at hx hx'
+            exact hU w w' x hx hx'
+  have hno3 : ∀ w, ((setContainerP s2 new none).get w).cont ≠ some sl := by
+    intro w hx
+    rw [cont3 w] at hx
+    by_cases h1 : w = new
+    · simp [h1] at hx
+    · by_cases h3 : w = old
+      · simp [h1, h3] at hx
+      · simp only [h1, h3, if_false] at hx
+        exact h3 (hU w old sl hx hsl)
+  have hv3 : ((setContainerP s2 new none).get new).cont = none := by rw [cont3 new]; simp
+  have e : setContainerP s2 new (some sl) =
+      addAll ((setContainerP s2 new none).setV new (fun x => { x with cont := some sl }))
+        ((setContainerP s2 new none).get new).anc new sl := by
+    unfold setContainerP
+    simp only [setV_setV_cont, get_setV, if_true]
+  obtain ⟨r1, r2, _, _, _⟩ := attach0_spec (setContainerP s2 new none) new sl M3 U3 hv3 hno3
+  rw [← e, ← e3] at r1 r2
+  exact ⟨r1, r2⟩
+
 /-! ## the operations of the engine -/
 
 /-- an attached value is what its slot holds (so ids are unique) -/
@@ -833,51 +1089,147 @@ theorem init_inv : Inv {} := by
     · intro c h; cases h
   · intro sl o h; cases h
 
-theorem step_inv (s : LS) (op : Op) (s' : LS) (hI : Inv s) (h : step s op = .ok s') : Inv s' := by
+/-- no value is attached to a dict attribute -/
+def NoDict (s : LS) : Prop := ∀ v sl, (s.get v).cont = some sl → isDictSlot sl = false
+
+theorem setC_noDict (s : LS) (v : Nat) (new : Option Slot) (s' : LS) (C : SetC s v new s') (h : NoDict s)
+    (hn : ∀ n, new = some n → isDictSlot n = false) : NoDict s' := by
+  intro w sl hc
+  rw [C.cont w] at hc
+  split at hc
+  · exact hn sl hc
+  · exact h w sl hc
+
+theorem step_inv (s : LS) (op : Op) (s' : LS) (hI : Inv s) (hD : NoDict s) (hp : op.isPlain = true)
+    (h : step s op = .ok s') : Inv s' ∧ NoDict s' := by
   cases op with
   | mk ps =>
     simp only [step] at h
     split at h
     · cases h
-      apply alloc_inv s (mkAnc s ps) hI
-      intro a ha
-      have hatt := mkAnc_attached s ps a ha
-      apply Nat.lt_of_not_le
-      intro hle
-      unfold LS.attached at hatt
-      rw [hI.fresh a hle] at hatt
-      cases hatt
+      refine ⟨?_, ?_⟩
+      · apply alloc_inv s (mkAnc s ps) hI
+        intro a ha
+        have hatt := mkAnc_attached s ps a ha
+        apply Nat.lt_of_not_le
+        intro hle
+        unfold LS.attached at hatt
+        rw [hI.fresh a hle] at hatt
+        cases hatt
+      · intro w sl hc
+        have hget : (mk s ps).1.get w = if w = s.size then { anc := mkAnc s ps } else s.get w := rfl
+        rw [hget] at hc
+        split at hc
+        · cases hc
+        · exact hD w sl hc
     · cases h
   | setAttr sl v =>
     simp only [step] at h
     split at h
-    · rename_i hv; exact setAttr_inv s sl v s' hI hv h
+    · rename_i hv
+      refine ⟨setAttr_inv s sl v s' hI hv.1 h, ?_⟩
+      -- containers after the assignment: `v ↦ sl`, the previous holder unlinked, the others unchanged
+      unfold setAttr at h
+      simp only at h
+      split at h
+      · cases h
+      rename_i sB hsB
+      have hB : NoDict sB ∧ Mirror sB ∧ Uniq sB ∧ Fresh sB ∧
+          (∀ w, (∀ a ∈ (sB.get w).anc, a < sB.size) ∧ (∀ c ∈ (sB.get w).chi, c < sB.size)) ∧ sB.size = s.size ∧
+          (∀ w, (sB.get w).cont = if s.holds sl = some w then none else (s.get w).cont) := by
+        cases ho : s.holds sl with
+        | none =>
+          rw [ho] at hsB
+          cases hsB
+          exact ⟨hD, hI.mirror, hI.slot.uniq, hI.fresh, hI.refs, rfl, fun w => by simp [get_setSlot]⟩
+        | some o =>
+          rw [ho] at hsB
+          have C := setC_spec (s.setSlot sl v) o none sB hI.mirror hI.slot.uniq hI.fresh hI.refs
+            (hI.held sl o ho) (fun n hn => by cases hn) hsB
+          refine ⟨setC_noDict _ o none sB C hD (fun n hn => by cases hn), C.mirror, C.uniq, C.fresh, C.refs, C.size, fun w => ?_⟩
+          rw [C.cont w]
+          by_cases hw : w = o
+          · simp [hw]
+          · have : ¬ (some o = some w) := fun e => hw (by cases e; rfl)
+            simp [hw, this, get_setSlot]
+      obtain ⟨b0, b1, b2, b3, b4, b6, b7⟩ := hB
+      have hno : ∀ n, some sl = some n → ∀ w, w ≠ v → (sB.get w).cont ≠ some n := by
+        intro n hn w hw hc
+        cases hn
+        rw [b7 w] at hc
+        split at hc
+        · cases hc
+        · rename_i hne
+          exact hne (hI.slot w sl hc)
+      have C := setC_spec sB v (some sl) s' b1 b2 b3 b4 (by omega) hno h
+      exact setC_noDict sB v (some sl) s' C b0 (fun n hn => by cases hn; exact hv.2)
     · cases h
   | replace o n =>
     simp only [step] at h
     split at h
-    · rename_i hv; exact replace_inv s o n s' hI hv.1 hv.2 h
+    · rename_i hv
+      cases hc : (s.get o).cont with
+      | none =>
+        rw [hc] at h
+        simp only at h
+        unfold replace at h
+        rw [hc] at h
+        cases h
+      | some sl =>
+        rw [hc] at h
+        simp only at h
+        have hsl := hD o sl hc
+        rw [hsl] at h
+        simp only [Bool.false_eq_true, if_false] at h
+        refine ⟨replace_inv s o n s' hI hv.1 hv.2 h, ?_⟩
+        unfold replace at h
+        rw [hc] at h
+        simp only at h
+        split at h
+        · cases h
+        rename_i sB hsB
+        have B := setC_spec (s.setSlot sl n) o none sB hI.mirror hI.slot.uniq hI.fresh hI.refs hv.1
+          (fun n hn => by cases hn) hsB
+        have hno : ∀ m, some sl = some m → ∀ w, w ≠ n → (sB.get w).cont ≠ some m := by
+          intro m hm w hw hcw
+          cases hm
+          rw [B.cont w] at hcw
+          split at hcw
+          · cases hcw
+          · rename_i hwo
+            rw [get_setSlot] at hcw
+            exact hwo (hI.slot.uniq w o sl hcw hc)
+        have C := setC_spec sB n (some sl) s' B.mirror B.uniq B.fresh B.refs (by rw [B.size]; exact hv.2) hno h
+        exact setC_noDict sB n (some sl) s' C (setC_noDict _ o none sB B hD (fun n hn => by cases hn))
+          (fun m hm => by cases hm; exact hsl)
     · cases h
   | detach v =>
     simp only [step] at h
     split at h
-    · rename_i hv; exact detach_inv s v s' hI hv h
+    · rename_i hv
+      refine ⟨detach_inv s v s' hI hv h, ?_⟩
+      have C := setC_spec s v none s' hI.mirror hI.slot.uniq hI.fresh hI.refs hv (fun n hn => by cases hn) h
+      exact setC_noDict s v none s' C hD (fun n hn => by cases hn)
     · cases h
+  | dictSet sl key v => cases hp
 
-/-- **after any sequence of operations that does not raise, the links are mirrored and ids unique** -/
-theorem run_inv (ops : List Op) (s : LS) (h : run ops = .ok s) : Inv s := by
+/-- **after any sequence of operations on plain attributes that does not raise, the links are mirrored
+and ids unique** -/
+theorem run_inv (ops : List Op) (hp : ∀ op ∈ ops, op.isPlain = true) (s : LS) (h : run ops = .ok s) : Inv s := by
   unfold run at h
-  have key : ∀ (ops : List Op) (s0 s : LS), Inv s0 → ops.foldlM step s0 = .ok s → Inv s := by
+  have key : ∀ (ops : List Op), (∀ op ∈ ops, op.isPlain = true) → ∀ (s0 s : LS), Inv s0 → NoDict s0 →
+      ops.foldlM step s0 = .ok s → Inv s := by
     intro ops
     induction ops with
-    | nil => intro s0 s h0 h; simp [List.foldlM] at h; cases h; exact h0
+    | nil => intro _ s0 s h0 _ h; simp [List.foldlM] at h; cases h; exact h0
     | cons op ops ih =>
-      intro s0 s h0 h
+      intro hp s0 s h0 hd h
       simp only [List.foldlM_cons, bind, Except.bind] at h
       split at h
       · cases h
       rename_i s1 hs1
-      exact ih s1 s (step_inv s0 op s1 h0 hs1) h
-  exact key ops {} s init_inv h
+      obtain ⟨i1, d1⟩ := step_inv s0 op s1 h0 hd (hp op (by simp)) hs1
+      exact ih (fun o ho => hp o (by simp [ho])) s1 s i1 d1 h
+  exact key ops hp {} s init_inv (fun v sl hc => by cases hc) h
 
 end Efp.Links
